@@ -264,7 +264,9 @@ package engine
 //@   ensures result is ValueHashMap && fresh((result as ValueHashMap).Value) && domain((result as ValueHashMap).Value) == domain(v.Value)
 //@   ensures forall k Str :: { select(values((result as ValueHashMap).Value), k) } has(v.Value, k) && (v.Value[k] is ValueString) ==> (result as ValueHashMap).Value[k] == v.Value[k]
 //@   ensures kinds: forall k Str :: { select(values((result as ValueHashMap).Value), k) } has(v.Value, k) && v.Value[k] != nil ==> (result as ValueHashMap).Value[k] != nil && (((result as ValueHashMap).Value[k] is ValueString) == (v.Value[k] is ValueString)) [C05]
+//@   ensures deep: forall k Str :: { select(values((result as ValueHashMap).Value), k) } has(v.Value, k) && (v.Value[k] is ValueHashMap) ==> ((result as ValueHashMap).Value[k] is ValueHashMap) && fresh(((result as ValueHashMap).Value[k] as ValueHashMap).Value) [C02]
 //@   loop 1 invariant result.Value != nil && fresh(result.Value) && result.Value != v.Value
+//@   loop 1 invariant deep: forall q Str :: { select(values(result.Value), q) } has(result.Value, q) && (v.Value[q] is ValueHashMap) ==> (result.Value[q] is ValueHashMap) && fresh((result.Value[q] as ValueHashMap).Value) [C02]
 //@   loop 1 invariant forall q Str :: { select(rangevisited, q) } { select(domain(result.Value), q) } select(rangevisited, q) == has(result.Value, q)
 //@   loop 1 invariant forall q Str :: { select(rangevisited, q) } select(rangevisited, q) ==> has(v.Value, q)
 //@   loop 1 invariant forall q Str :: { select(values(result.Value), q) } has(result.Value, q) && (v.Value[q] is ValueString) ==> result.Value[q] == v.Value[q]
@@ -318,7 +320,9 @@ package engine
 //@   ensures step: cellOk(es) && frozen(es, e0) && rdData(es.reader) == d0 && *es == e0
 //@   ensures bind: noNamedLoop(es) ==> domain(env) == store(old(domain(env)), name, true) && values(env) == store(old(values(env)), name, value) [C02]
 //@   ensures isolated: noNamedLoop(es) ==> forall k :: { es.backtrack.store[k].environment } 0 <= k && k < len(es.backtrack.store) ==> domain(es.backtrack.store[k].environment.Value) == old(domain(es.backtrack.store[k].environment.Value)) && values(es.backtrack.store[k].environment.Value) == old(values(es.backtrack.store[k].environment.Value)) [C02]
+//@   atcall Add toplevel: !defined(index) ==> noNamedLoop(es) [C02]
 //@   loop 1 invariant cellOk(es) && frozen(es, e0) && rdData(es.reader) == d0 && *es == e0 && i < len(es.loopStack.store) && (lowestScope != nil ==> lowestScope.variables.Value != nil) && (noNamedLoop(es) && lowestScope != nil ==> lowestScope.name == "")
+//@   loop 1 invariant scanned: (forall k :: { es.loopStack.store[k].name } i < k && k < len(es.loopStack.store) ==> es.loopStack.store[k].name == "") && (lowestScope != nil ==> (exists k :: { es.loopStack.store[k].name } 0 <= k && k < len(es.loopStack.store) && lowestScope == &es.loopStack.store[k])) [C02]
 //@   loop 1 decreases i + 1
 
 //@ func (*SearchEngineState).ENDVAR [C03 C09 C10 C02]
@@ -835,6 +839,9 @@ package engine
 //@   ensures skipexact: last == 0 && len(result) > 0 ==> result[0].MatchNumber == skip + 1 [C04]
 //@   loop 1 ghost lastEnd Int := 0 ;; ((currentState.status == SUCCESS && len(currentState.currentMatch) != 0) ? currentState.currentFileOffset : lastEnd)
 //@   loop 1 invariant stepover: lastEnd <= fileOffset [C04]
+//@   loop 1 ghost cur Int := 0 ;; fileOffset
+//@   loop 1 ghost prevOff Int := 0 - 1 ;; cur
+//@   loop 1 invariant advance: cur == fileOffset && prevOff < fileOffset && (prevOff < 0 || fileOffset == prevOff + 1 || fileOffset == lastEnd) [C03]
 //@   loop 1 invariant window: (last != 0 ==> len(matches.store) <= last) && (last == 0 ==> len(matches.store) == max(0, matchNumber - skip)) && (!all ==> matchNumber <= skip + take) [C04]
 //@   loop 2 invariant window: (last != 0 ==> len(matches.store) <= last) && (last == 0 ==> len(matches.store) == max(0, matchNumber - skip)) && (!all ==> matchNumber <= skip + take) [C04]
 //@   loop 1 invariant first: last == 0 && len(matches.store) > 0 ==> matches.store[0].MatchNumber == skip + 1 [C04]
